@@ -194,12 +194,12 @@ def plan(tier, seed):
             specs.append({"kind": "patterns", "n": n, "chunk": c, "nchunks": nchunks, "reps": reps})
     ns = 16 if tier == "quick" else 32
     for i in range(ns):
-        specs.append({"kind": "structured", "sub": i, "cases": 110 if tier == "quick" else 700, "nmax": 64 if tier == "quick" else 120,
-                      "budget_s": 100 if tier == "quick" else 900})
+        specs.append({"kind": "structured", "sub": i, "cases": 110 if tier == "quick" else 1500, "nmax": 64 if tier == "quick" else 120,
+                      "budget_s": 100 if tier == "quick" else 600})
     nf = 16 if tier == "quick" else 32
     for i in range(nf):
-        specs.append({"kind": "float", "sub": i, "cases": 12 if tier == "quick" else 120, "nmax": 400, "exact_all": tier != "quick",
-                      "budget_s": 100 if tier == "quick" else 1200})
+        specs.append({"kind": "float", "sub": i, "cases": 12 if tier == "quick" else 300, "nmax": 400, "exact_all": tier != "quick",
+                      "budget_s": 100 if tier == "quick" else 600})
     return specs
 
 
